@@ -451,6 +451,15 @@ class Run:
             out = {"k": "ok", "cls": "", "id": -1, "m": NOMSG}
         else:
             raise ValueError(kind)
+        if kind in ("recv", "recvbad", "recvundec", "recvlong") and out["k"] == "yield":
+            # the yielded message belongs to the application: whatever it does to the object afterwards must not
+            # reach the controller (a later identical line decodes afresh)
+            for attr, junk in (("payload", "\x00tampered by the application"), ("ack", 1 - int(bool(getattr(val, "ack", 0)))),
+                               ("message_type", 250), ("child_id", 254)):
+                try:
+                    setattr(val, attr, junk)
+                except Exception:  # noqa: BLE001 - an immutable message is fine too
+                    pass
         t1 = time.time()
         if self.mqtt is not None:
             writes = self.mqtt.new_writes()
